@@ -165,6 +165,8 @@ theorem dnsDecodeQuery_facts {b : RxBuf} {d : Decoded} (h : dnsDecodeQuery b = .
         dsimp only at h
         split at h
         · cases h; exact ⟨by simp, by simp⟩
+        split at h
+        · cases h; exact ⟨by simp, by simp⟩
         · obtain ⟨t, ht, h⟩ := bind_eq_ok h
           obtain ⟨c, _, h⟩ := bind_eq_ok h
           cases h
